@@ -33,7 +33,7 @@ def case_strategy(draw, tier):
         rec = draw(genheat.heat_net(max_n=4 if tier == "quick" else 7, labels=False, allow_oos=True))
         opts = draw(genheat.heat_options())
     else:
-        rec, opts = draw(gen.hyd_case(max_n=8 if tier == "quick" else 20, tight=True, labels=False, sectors=False))
+        rec, opts = draw(gen.hyd_case(max_n=8 if tier == "quick" else 20, tight=True, labels=False, sectors=False, pi_every=3))
         opts["mode"] = "hydraulics"
     rec.pop("row_order", None)
     tables = {}
@@ -43,9 +43,10 @@ def case_strategy(draw, tier):
     tau = {"kinds": kinds}
     jl = [j["index"] for j in rec["junction"]]
     if "labels" in kinds:
-        scheme = draw(st.sampled_from(["shuffled", "sparse", "large", "mixed"]))
+        scheme = draw(st.sampled_from(["shuffled", "sparse", "large", "mixed", "stride", "contiguous"]))
         tau["jmap"] = dict(zip(jl, draw(gen.label_map(len(jl), scheme))))
-        tau["tmaps"] = {t: dict(zip(ix, draw(gen.label_map(len(ix), draw(st.sampled_from(["shuffled", "sparse", "large", "mixed"]))))))
+        tau["tmaps"] = {t: dict(zip(ix, draw(gen.label_map(len(ix), draw(st.sampled_from(["shuffled", "sparse", "large", "mixed",
+                                                                                             "stride", "stride"]))))))
                         for t, ix in sorted(tables.items())}
     else:
         tau["jmap"] = {i: i for i in jl}
